@@ -5,6 +5,7 @@ import (
 	"go/token"
 	"go/types"
 	"regexp/syntax"
+	"strings"
 
 	"golang.org/x/tools/go/ssa"
 
@@ -63,6 +64,22 @@ func init() {
 			}},
 			{Name: "rewrite: no-dollar fast path, callback delegating to a named helper", Edits: []Edit{
 				{File: "internal/config/config.go", Old: "\treturn envVarRegex.ReplaceAllStringFunc(s, func(match string) string {", New: "\tif !strings.Contains(s, \"$\") {\n\t\treturn s\n\t}\n\treturn envVarRegex.ReplaceAllStringFunc(s, func(m string) string { return resolveRef(m) })\n}\n\nfunc resolveRef(match string) string {\n\t{"},
+				{File: "internal/config/config.go", Old: "\t\treturn match // Keep original if not found\n\t})\n}", New: "\t\treturn match // Keep original if not found\n\t}\n}"},
+			}},
+			{Name: "rewrite: named resolver, body helper, strings.Cut and one lookup with a pre-chosen fallback", Edits: []Edit{
+				{File: "internal/config/config.go", Old: "\treturn envVarRegex.ReplaceAllStringFunc(s, func(match string) string {", New: "\treturn envVarRegex.ReplaceAllStringFunc(s, resolveRefA)\n}\n\nfunc refBodyA(ref string) string {\n\tif !strings.HasPrefix(ref, \"${\") {\n\t\treturn ref[1:]\n\t}\n\treturn ref[2 : len(ref)-1]\n}\n\nfunc resolveRefA(ref string) string {\n\tvarName, fallback, hasDefault := strings.Cut(refBodyA(ref), \":-\")\n\tif !hasDefault {\n\t\tfallback = ref\n\t}\n\tval, found := os.LookupEnv(varName)\n\tif !found {\n\t\treturn fallback\n\t}\n\treturn val\n}\n\nfunc oldExpandBody(match string) string {\n\t{"},
+				{File: "internal/config/config.go", Old: "\t\treturn match // Keep original if not found\n\t})\n}", New: "\t\treturn match // Keep original if not found\n\t}\n}"},
+			}},
+			{Name: "single lookup whose fallback for a plain reference is the empty string", ExpectRule: "C37.R3", Edits: []Edit{
+				{File: "internal/config/config.go", Old: "\treturn envVarRegex.ReplaceAllStringFunc(s, func(match string) string {", New: "\treturn envVarRegex.ReplaceAllStringFunc(s, resolveRefA)\n}\n\nfunc refBodyA(ref string) string {\n\tif !strings.HasPrefix(ref, \"${\") {\n\t\treturn ref[1:]\n\t}\n\treturn ref[2 : len(ref)-1]\n}\n\nfunc resolveRefA(ref string) string {\n\tvarName, fallback, hasDefault := strings.Cut(refBodyA(ref), \":-\")\n\tif !hasDefault {\n\t\tfallback = \"\"\n\t}\n\tval, found := os.LookupEnv(varName)\n\tif !found {\n\t\treturn fallback\n\t}\n\treturn val\n}\n\nfunc oldExpandBody(match string) string {\n\t{"},
+				{File: "internal/config/config.go", Old: "\t\treturn match // Keep original if not found\n\t})\n}", New: "\t\treturn match // Keep original if not found\n\t}\n}"},
+			}},
+			{Name: "rewrite: hand-written FindAllStringSubmatchIndex scanner assembling the result in a strings.Builder", Edits: []Edit{
+				{File: "internal/config/config.go", Old: "\treturn envVarRegex.ReplaceAllStringFunc(s, func(match string) string {", New: "\tif strings.IndexByte(s, '$') < 0 {\n\t\treturn s\n\t}\n\trefs := envVarRegex.FindAllStringSubmatchIndex(s, -1)\n\tvar out strings.Builder\n\tcopied := 0\n\tfor _, loc := range refs {\n\t\tout.WriteString(s[copied:loc[0]])\n\t\tnameStart, nameEnd := loc[2], loc[3]\n\t\tif nameStart < 0 {\n\t\t\tnameStart, nameEnd = loc[4], loc[5]\n\t\t}\n\t\tout.WriteString(lookupRefC(s[nameStart:nameEnd], s[loc[0]:loc[1]]))\n\t\tcopied = loc[1]\n\t}\n\tout.WriteString(s[copied:])\n\treturn out.String()\n}\n\nfunc lookupRefC(name, original string) string {\n\tvarName, notFound := name, original\n\tif idx := strings.Index(name, \":-\"); 0 <= idx {\n\t\tvarName, notFound = name[:idx], name[idx+2:]\n\t}\n\tif val, ok := os.LookupEnv(varName); ok {\n\t\treturn val\n\t}\n\treturn notFound\n}\n\nfunc oldExpandBody(match string) string {\n\t{"},
+				{File: "internal/config/config.go", Old: "\t\treturn match // Keep original if not found\n\t})\n}", New: "\t\treturn match // Keep original if not found\n\t}\n}"},
+			}},
+			{Name: "hand-written scanner re-expands its own output", ExpectRule: "C37.R1", Edits: []Edit{
+				{File: "internal/config/config.go", Old: "\treturn envVarRegex.ReplaceAllStringFunc(s, func(match string) string {", New: "\tif strings.IndexByte(s, '$') < 0 {\n\t\treturn s\n\t}\n\trefs := envVarRegex.FindAllStringSubmatchIndex(s, -1)\n\tvar out strings.Builder\n\tcopied := 0\n\tfor _, loc := range refs {\n\t\tout.WriteString(s[copied:loc[0]])\n\t\tnameStart, nameEnd := loc[2], loc[3]\n\t\tif nameStart < 0 {\n\t\t\tnameStart, nameEnd = loc[4], loc[5]\n\t\t}\n\t\tout.WriteString(lookupRefC(s[nameStart:nameEnd], s[loc[0]:loc[1]]))\n\t\tcopied = loc[1]\n\t}\n\tout.WriteString(s[copied:])\n\treturn expandEnvVars(out.String())\n}\n\nfunc lookupRefC(name, original string) string {\n\tvarName, notFound := name, original\n\tif idx := strings.Index(name, \":-\"); 0 <= idx {\n\t\tvarName, notFound = name[:idx], name[idx+2:]\n\t}\n\tif val, ok := os.LookupEnv(varName); ok {\n\t\treturn val\n\t}\n\treturn notFound\n}\n\nfunc oldExpandBody(match string) string {\n\t{"},
 				{File: "internal/config/config.go", Old: "\t\treturn match // Keep original if not found\n\t})\n}", New: "\t\treturn match // Keep original if not found\n\t}\n}"},
 			}},
 			{Name: "dollar made optional in the pattern", ExpectRule: "C37.R2", Edits: []Edit{
@@ -138,6 +155,7 @@ type c37Expander struct {
 	fn       *ssa.Function
 	call     *ssa.Call
 	callback *ssa.Function
+	scanner  bool // hand-written scanner: regexp Find* over the parameter, result assembled in a builder
 }
 
 func runC37(p *kit.Program, r *kit.Report) {
@@ -162,7 +180,37 @@ func runC37(p *kit.Program, r *kit.Report) {
 				continue
 			}
 			if c37ReadsEnv(cb, 0, map[*ssa.Function]bool{}) {
-				exps = append(exps, c37Expander{fn, call, cb})
+				exps = append(exps, c37Expander{fn: fn, call: call, callback: cb})
+			}
+		}
+	}
+	// hand-written scanners: a function string -> string that applies a regexp Find* method to its
+	// parameter and reads the environment (directly or through helpers)
+	for _, fn := range p.FuncsInPkg("internal/config") {
+		if fn.Parent() != nil || len(fn.Params) == 0 || fn.Signature.Results().Len() != 1 {
+			continue
+		}
+		already := false
+		for _, e := range exps {
+			if e.fn == fn {
+				already = true
+			}
+		}
+		if already {
+			continue
+		}
+		for _, c := range kit.Calls(fn) {
+			cal := kit.CalleeOf(c)
+			call, ok := c.(*ssa.Call)
+			if !ok || cal.Pkg != "regexp" || cal.Recv != "Regexp" || !strings.HasPrefix(cal.Name, "Find") || !strings.Contains(cal.Name, "String") {
+				continue
+			}
+			if _, isParam := kit.Arg(c, 0).(*ssa.Parameter); !isParam {
+				continue
+			}
+			if c37ReadsEnv(fn, 0, map[*ssa.Function]bool{}) {
+				exps = append(exps, c37Expander{fn: fn, call: call, scanner: true})
+				break
 			}
 		}
 	}
@@ -208,6 +256,10 @@ func runC37(p *kit.Program, r *kit.Report) {
 		sfx := ""
 		if perFn[e.fn] > 1 {
 			sfx = fmt.Sprintf(" (pass #%d)", passNo[e.fn])
+		}
+		if e.scanner {
+			c37Scanner(p, r, e, exps, fname, pos)
+			continue
 		}
 		if passNo[e.fn] == 1 {
 			// ---- R1 (a): exactly one pass in the expander and everything it defines (once per function)
@@ -305,7 +357,7 @@ func runC37(p *kit.Program, r *kit.Report) {
 		}
 		inCallback := false
 		for _, e := range exps {
-			if kit.TopLevel(e.callback) == top {
+			if e.callback != nil && kit.TopLevel(e.callback) == top {
 				inCallback = true
 			}
 		}
@@ -571,7 +623,9 @@ func c37Leaves(v ssa.Value, gs []kit.Guard, seen map[ssa.Value]bool, out *[]c37L
 		}
 		seen[v] = true
 		for i, e := range phi.Edges {
-			c37Leaves(e, c37GuardsOnEdge(phi.Block().Preds[i], phi.Block()), seen, out)
+			// both hold for this leaf: what guards the use, and what selected this edge of the phi
+			merged := append(append([]kit.Guard{}, gs...), c37GuardsOnEdge(phi.Block().Preds[i], phi.Block())...)
+			c37Leaves(e, merged, seen, out)
 		}
 		return
 	}
@@ -619,6 +673,49 @@ func c37SubOfF(v ssa.Value, base func(ssa.Value) bool, depth int) bool {
 			}
 		}
 		return len(x.Edges) > 0
+	case *ssa.Extract:
+		// before / after of strings.Cut, the remainder of CutPrefix / CutSuffix
+		if c, ok := x.Tuple.(*ssa.Call); ok {
+			cal := kit.CalleeOf(c)
+			if cal.Pkg == "strings" && len(c.Call.Args) >= 1 {
+				switch {
+				case cal.Name == "Cut" && x.Index <= 1, (cal.Name == "CutPrefix" || cal.Name == "CutSuffix") && x.Index == 0:
+					return c37SubOfF(c.Call.Args[0], base, depth+1)
+				}
+			}
+		}
+	case *ssa.Call:
+		cal := kit.CalleeOf(x)
+		if cal.Pkg == "strings" && len(x.Call.Args) >= 1 {
+			switch cal.Name {
+			case "TrimPrefix", "TrimSuffix", "TrimSpace", "Trim", "TrimLeft", "TrimRight", "TrimFunc", "TrimLeftFunc", "TrimRightFunc":
+				return c37SubOfF(x.Call.Args[0], base, depth+1)
+			}
+		}
+		// a repository helper every return of which is a sub-slice of an argument that is
+		// itself a sub-slice of the match (envRefBody(ref) = ref[1:] / ref[2:len(ref)-1])
+		if h := cal.Static; h != nil && h.Blocks != nil && kit.IsRepoPkg(kit.FuncPkgPath(h)) && depth < 6 {
+			args := x.Call.Args
+			hb := func(q ssa.Value) bool {
+				for i, prm := range h.Params {
+					if q == ssa.Value(prm) && i < len(args) && c37SubOfF(args[i], base, depth+2) {
+						return true
+					}
+				}
+				return false
+			}
+			n := 0
+			for _, ret := range kit.Returns(h) {
+				if ret.Block() == h.Recover || len(ret.Results) != 1 {
+					continue
+				}
+				n++
+				if !c37SubOfF(ret.Results[0], hb, depth+2) {
+					return false
+				}
+			}
+			return n > 0
+		}
 	}
 	return false
 }
@@ -864,4 +961,92 @@ func c37SinglePass(p *kit.Program, r *kit.Report, e c37Expander, exps []c37Expan
 		"the expander is not called from itself or its callback",
 		"the expander is called again at "+reenter+" from inside the expansion: substituted environment values are expanded again")
 
+}
+
+// c37IsScan: a call that scans text for references (another pass when applied to produced text).
+func c37IsScan(cal kit.Callee) bool {
+	if c37IsPass(cal) {
+		return true
+	}
+	return cal.Pkg == "regexp" && cal.Recv == "Regexp" && strings.HasPrefix(cal.Name, "Find")
+}
+
+// c37Scanner judges a hand-written scanner (regexp Find* over the parameter, output assembled
+// with a strings.Builder): what can be decided exactly is decided, the rest is stated as info.
+func c37Scanner(p *kit.Program, r *kit.Report, e c37Expander, exps []c37Expander, fname, pos string) {
+	fn := e.fn
+	param := kit.Arg(e.call, 0)
+	// R1: one scan, over the parameter, never over produced text
+	scans, reenter, badIn := 0, "", ""
+	for _, f := range kit.WithClosures(fn) {
+		for _, c := range kit.Calls(f) {
+			cal := kit.CalleeOf(c)
+			if c37IsScan(cal) {
+				scans++
+				if a := kit.Arg(c, 0); a != param {
+					badIn = p.Pos(c.Pos())
+				}
+			}
+			for _, x := range exps {
+				if cal.Static == x.fn {
+					reenter = p.Pos(c.Pos())
+				}
+			}
+		}
+	}
+	r.Decide(scans == 1, "C37.R1", fname+" single pass", pos,
+		"one scan for references (regexp Find*) in the expander",
+		fmt.Sprintf("%d scanning/substitution calls (regexp Find*/Replace*, os.Expand*) in the expander: text produced by one pass is scanned again by the next", scans))
+	r.Decide(reenter == "", "C37.R1", fname+" not re-entered", pos,
+		"the expander is not called from itself",
+		"the expander is called again at "+reenter+" from inside the expansion: substituted environment values are expanded again")
+	r.Decide(badIn == "", "C37.R1", fname+" input", pos,
+		"the scan runs over the unmodified parameter",
+		"the scan at "+badIn+" runs over text that is not the expander's parameter (e.g. the partially built output): substituted values are scanned and expanded again")
+	r.Infof("C37.R1", fname+" result", pos, "hand-written scanner: the segments written to the output are judged one by one (C37.R3); that their concatenation is returned unmodified is not judged")
+
+	// R2: the pattern
+	c37Pattern(p, r, e, fname)
+
+	// R3: every segment written to the output is verbatim input text or the outcome of a lookup
+	base := func(v ssa.Value) bool { return v == param }
+	cnt := &c37Counts{}
+	nSeg := 0
+	for _, c := range kit.Calls(fn) {
+		cal := kit.CalleeOf(c)
+		if !(cal.Pkg == "strings" && cal.Recv == "Builder" && cal.Name == "WriteString") {
+			continue
+		}
+		nSeg++
+		arg := kit.Arg(c, 0)
+		key := fmt.Sprintf("%s output segment #%d", fname, nSeg)
+		if c37SubOfF(arg, base, 0) {
+			r.OK("C37.R3", key, p.Pos(c.Pos()), "verbatim text of the input")
+			continue
+		}
+		if hc, ok := arg.(*ssa.Call); ok {
+			h := kit.CalleeOf(hc).Static
+			if h != nil && h.Blocks != nil && kit.IsRepoPkg(kit.FuncPkgPath(h)) && c37ReadsEnv(h, 0, map[*ssa.Function]bool{}) {
+				args := hc.Call.Args
+				hb := func(v ssa.Value) bool {
+					for i, prm := range h.Params {
+						if v == ssa.Value(prm) && i < len(args) && c37SubOfF(args[i], base, 0) {
+							return true
+						}
+					}
+					return false
+				}
+				r.OK("C37.R3", key, p.Pos(c.Pos()), "replacement computed by %s, judged below", kit.FuncName(h))
+				c37AnalyseReturns(p, r, h, hb, func(ssa.Value) bool { return false }, 1, map[*ssa.Function]bool{}, cnt)
+				continue
+			}
+		}
+		r.Violation("C37.R3", key, p.Pos(c.Pos()), "the scanner writes %s to the output, which is neither verbatim input text nor the outcome of an environment lookup on a reference: text without '$' is altered or a substituted value is computed (possibly expanded again)", c37Describe(arg))
+	}
+	if nSeg == 0 {
+		r.Infof("C37.R3", fname+" output segments", pos, "the scanner does not assemble its result with strings.Builder.WriteString; its replacement values are not judged")
+	}
+	r.Count("scanner_output_segments", nSeg)
+	r.Count("callback_returns", cnt.ret)
+	r.Count("env_lookups", cnt.look)
 }
